@@ -35,7 +35,11 @@ def serialize_json(
         for the provided element(s).
     """
     primary = elements[0]
-    object_classes = get_object_classes(*elements)
+    # Classes which are only reachable through the extra definitions
+    # still need their own definition to be referenced.
+    object_classes = get_object_classes(
+        *elements, *(definitions or {}).values()
+    )
     serialize = partial(
         _serialize_element, object_refs=True, definitions=definitions
     )
